@@ -26,7 +26,9 @@ CHECKS = {
          "through the linearisation theorem run_correct (any well-formed plan computes eval; nested induction over graph trees, "
          "unbounded), named_is_plan (named execution = name-erased plan execution under the name-table validators) and proved-sound "
          "executable well-formedness checks that the model applies to its own output; BY CONSTRUCTION (no validator): no application a requested "
-         "output depends on is dropped and nothing else is emitted (C01_no_application_is_dropped_by_construction). Per-run CORRESPONDENCE: the real ModelProto equals the model's output name-for-name on generated programs "
+         "output depends on is dropped and nothing else is emitted (C01_no_application_is_dropped_by_construction), the plan of a returned model "
+         "IS the ownership map unfolded (C01_plan_is_the_ownership_map_unfolded), hence C01_build_sem_by_construction: the semantic statement "
+         "with a decidable premise on the PROGRAM only (its specification-level plan is well-formed; evaluated on every generated program). Per-run CORRESPONDENCE: the real ModelProto equals the model's output name-for-name on generated programs "
          "(If/Loop/Scan nesting, closures, sharing, leaks). Direct ORACLE: every built model executed by onnxruntime vs an "
          "independent numpy evaluator of the object graph.",
     note=TB + "Assumed: onnxruntime implements the abstract opsem (each operator's ONNX semantics). 'Legal programs always build' is "
